@@ -21,11 +21,11 @@ META = {
         "R-BIC encodes ISO 9362: [A-Z0-9]{4} ([A-Z]{4} strict) [A-Z]{2} [A-Z0-9]{2} ([A-Z0-9]{3})? on the whole normalised text",
         "DONT_CARE zones as in C01 (ambiguous normalisation)",
     ],
-    "min_distinct": {"quick": 20000, "thorough": 300000},
+    "min_distinct": {"quick": 30000, "thorough": 1500000},
 }
 SIZES = {
-    "quick": dict(bases=4, per_code=3, fuzz=6000, w7=1500, deco=40, hyp=300, parts=8),
-    "thorough": dict(bases=40, per_code=40, fuzz=150000, w7=40000, deco=1500, hyp=4000, parts=32),
+    "quick": dict(bases=8, per_code=6, fuzz=20000, w7=4000, deco=100, hyp=600, parts=8),
+    "thorough": dict(bases=160, per_code=150, fuzz=800000, w7=300000, deco=6000, hyp=20000, parts=32),
 }
 
 
